@@ -473,7 +473,7 @@ func genProject(r *rng.R, nPerturb int) (pProject, []string) {
 		if r.Chance(1, 3) {
 			fields = append(fields, pField{Name: "Kids", Type: "[]Item", Tag: `json:"kids"`})
 		}
-		if os.Getenv("VH_ODD_FIELDS") != "" && r.Chance(1, 3) {
+		if os.Getenv("VH_ODD_FIELDS") != "" && r.Chance(2, 3) {
 			// C08 only: field types the tool turns into a component reference without ever creating the component
 			// (whether it refuses the project or documents the field, the document it writes must be closed)
 			fields = append(fields, pField{Name: "Odd", Type: rng.Pick(r, []string{"byte", "rune", "uintptr", "complex128", "error", "map[string]byte", "[]rune", "struct{ A int }", "any", "[4]int", "func()", "chan int"}), Tag: `json:"odd"`})
@@ -721,6 +721,10 @@ func genProj(seed uint64, n int, tier string, emit func(string, []string, any)) 
 		p, applied := genProject(cr, np)
 		if os.Getenv("VH_TYPES") != "" {
 			p, applied = genTypesProject(cr)
+		}
+		if os.Getenv("VH_LOAD_FAILURES") != "" && np == 0 && cr.Chance(1, 3) {
+			p.Config.AllowLoadFailures = true
+			applied = append(applied, "package-with-load-error")
 		}
 		if validOnly && os.Getenv("VH_KEEP_ENFORCE") == "" {
 			p.Config.Enforce = false
